@@ -122,8 +122,12 @@ def font_variants():
             if "desc" not in shared:
                 fd = alloc({b"Type": Name(b"FontDescriptor"), b"FontName": Name(b"SharedCID"), b"Flags": 4, b"FontBBox": [0, -200, 1000, 800], b"ItalicAngle": 0, b"Ascent": 800, b"Descent": -200, b"CapHeight": 700, b"StemV": 80})
                 shared["desc"] = alloc({b"Type": Name(b"Font"), b"Subtype": Name(b"CIDFontType2"), b"BaseFont": Name(b"SharedCID"), b"CIDSystemInfo": {b"Registry": Str(b"Adobe"), b"Ordering": Str(b"Identity"), b"Supplement": 0}, b"FontDescriptor": fd, b"DW": 600})
+            d = {b"Type": Name(b"Font"), b"Subtype": Name(b"Type0"), b"BaseFont": Name(b"SharedCID"), b"Encoding": Name(b"Identity-H"), b"DescendantFonts": [shared["desc"]]}
+            if which == "C":
+                return d  # the third parent has no /ToUnicode at all: nothing of its siblings' maps belongs to it
             tu = TOUNICODE16 if which == "A" else TOUNICODE16.replace(b"<0058>", b"<005A>").replace(b"<00590059>", b"<0051>")
-            return {b"Type": Name(b"Font"), b"Subtype": Name(b"Type0"), b"BaseFont": Name(b"SharedCID"), b"Encoding": Name(b"Identity-H"), b"DescendantFonts": [shared["desc"]], b"ToUnicode": alloc(docs.content_stream(tu))}
+            d[b"ToUnicode"] = alloc(docs.content_stream(tu))
+            return d
 
         return f
 
@@ -133,6 +137,7 @@ def font_variants():
         "no-encoding": (no_encoding, 1),
         "type0-shared-descendant-A": (shared_descendant("A"), 2),
         "type0-shared-descendant-B": (shared_descendant("B"), 2),
+        "type0-shared-descendant-C": (shared_descendant("C"), 2),
         "helvetica": (std(b"Helvetica"), 1),
         "courier": (std(b"Courier"), 1),
         "times": (std(b"Times-Roman"), 1),
